@@ -33,7 +33,17 @@ NEEDS = {
 }
 
 
+def one(sid):
+    main([sid])
+    return sid
+
+
 def main(ids):
+    if len(ids) > 1:
+        from concurrent.futures import ThreadPoolExecutor
+        with ThreadPoolExecutor(4) as ex:
+            list(ex.map(one, ids))
+        return
     for sid in ids:
         own, related, needs = NEEDS[sid]
         d = os.path.join(VERIF, 'seeded', sid)
